@@ -260,8 +260,15 @@ Proof.
 Qed.
 
 (* ------------------------------------------------------------------ stability of a resolved pointer *)
-Definition simple_target (t : target) : Prop :=
-  match t with GNull | GCap _ | GStruct _ _ _ _ | GList _ _ _ _ => True | _ => False end.
+Definition simple_target (t : target) : Prop := match t with GBad _ => False | _ => True end.
+(* targets whose decoding reads nothing but the pointer word itself *)
+Definition no_tag (t : target) : Prop := match t with GBad _ | GComp _ _ _ _ _ => False | _ => True end.
+(* the tag word a composite-list target depends on *)
+Definition tag_pos (t : target) : option (Z * Z) :=
+  match t with GComp sid addr _ _ _ => Some (sid, addr - 8) | _ => None end.
+
+Lemma no_tag_simple t : no_tag t -> simple_target t.
+Proof. destruct t; cbn; auto. Qed.
 
 Definition grows (ms ms' : segs) : Prop :=
   zlen ms <= zlen ms' /\ forall i, 0 <= i < zlen ms -> seg_len ms i <= seg_len ms' i.
@@ -273,20 +280,30 @@ Proof.
   specialize (G2 sid ltac:(lia)). repeat (apply andb_true_intro; split); lia.
 Qed.
 
+Ltac bad_target H S := apply (f_equal fst) in H; cbn [fst] in H; subst; cbn in S; contradiction.
+
 Lemma decode_obj_stable (ms ms' : segs) sid base w t rs :
-  grows ms ms' -> decode_obj ms sid base w = (t, rs) -> simple_target t -> decode_obj ms' sid base w = (t, rs).
+  grows ms ms' -> decode_obj ms sid base w = (t, rs) -> simple_target t ->
+  (forall p, tag_pos t = Some p -> word_at ms' (fst p) (snd p) = word_at ms (fst p) (snd p)) ->
+  decode_obj ms' sid base w = (t, rs).
 Proof.
-  intros G H S. unfold decode_obj in *. cbv zeta in *.
+  intros G H S Wt. unfold decode_obj in *. cbv zeta in *.
   destruct (f_A w =? 0).
-  - destruct (in_seg ms sid _ _) eqn:E; [|inversion H; subst; cbn in S; contradiction].
+  - destruct (in_seg ms sid _ _) eqn:E; [|bad_target H S].
     rewrite (in_seg_mono _ _ _ _ _ G E). exact H.
   - destruct (f_C w <? 7).
-    + destruct (in_seg ms sid _ _) eqn:E; [|inversion H; subst; cbn in S; contradiction].
+    + destruct (in_seg ms sid _ _) eqn:E; [|bad_target H S].
       rewrite (in_seg_mono _ _ _ _ _ G E). exact H.
-    + destruct (negb (in_seg ms sid _ _)); [inversion H; subst; cbn in S; contradiction|].
-      destruct (word_at ms sid _); [|inversion H; subst; cbn in S; contradiction].
-      destruct (negb _); [inversion H; subst; cbn in S; contradiction|].
-      destruct (negb _); inversion H; subst; cbn in S; contradiction.
+    + destruct (in_seg ms sid (base + 8 * f_off w) (8 + 8 * f_D w)) eqn:E; cbn [negb] in *; [|bad_target H S].
+      rewrite (in_seg_mono _ _ _ _ _ G E). cbn [negb].
+      destruct (word_at ms sid (base + 8 * f_off w)) as [tag|] eqn:EW; [|bad_target H S].
+      destruct (negb (f_A tag =? 0)) eqn:E2; [bad_target H S|].
+      destruct (negb (_ =? f_D w)) eqn:E3; [bad_target H S|].
+      assert (Et : t = GComp sid (base + 8 * f_off w + 8) ((tag / 4) mod two30) (f_dw tag) (f_pc tag)).
+      { apply (f_equal fst) in H. cbn [fst] in H. auto. }
+      specialize (Wt (sid, base + 8 * f_off w + 8 - 8)). rewrite Et in Wt. specialize (Wt eq_refl). cbn [fst snd] in Wt.
+      replace (base + 8 * f_off w + 8 - 8) with (base + 8 * f_off w) in Wt by lia.
+      rewrite Wt, EW, E2, E3. exact H.
 Qed.
 
 Lemma decode_obj_one (ms : segs) sid base w t rs :
@@ -294,13 +311,14 @@ Lemma decode_obj_one (ms : segs) sid base w t rs :
 Proof.
   intros H S. unfold decode_obj in H. cbv zeta in H.
   destruct (f_A w =? 0).
-  - destruct (in_seg ms sid _ _); inversion H; subst; [eexists; reflexivity|cbn in S; contradiction].
+  - destruct (in_seg ms sid _ _); [|bad_target H S]. apply (f_equal snd) in H. cbn [snd] in H. subst rs. eexists; reflexivity.
   - destruct (f_C w <? 7).
-    + destruct (in_seg ms sid _ _); inversion H; subst; [eexists; reflexivity|cbn in S; contradiction].
-    + destruct (negb (in_seg ms sid _ _)); [inversion H; subst; cbn in S; contradiction|].
-      destruct (word_at ms sid (base + 8 * f_off w)); [|inversion H; subst; cbn in S; contradiction].
-      destruct (negb _); [inversion H; subst; cbn in S; contradiction|].
-      destruct (negb _); inversion H; subst; cbn in S; contradiction.
+    + destruct (in_seg ms sid _ _); [|bad_target H S]. apply (f_equal snd) in H. cbn [snd] in H. subst rs. eexists; reflexivity.
+    + destruct (negb (in_seg ms sid _ _)); [bad_target H S|].
+      destruct (word_at ms sid (base + 8 * f_off w)) as [tag|]; [|bad_target H S].
+      destruct (negb (f_A tag =? 0)); [bad_target H S|].
+      destruct (negb _); [bad_target H S|].
+      apply (f_equal snd) in H. cbn [snd] in H. subst rs. eexists; reflexivity.
 Qed.
 
 (* the words of a region *)
@@ -311,50 +329,58 @@ Lemma resolve_stable (ms ms' : segs) s a t rs :
   grows ms ms' -> resolve_ptr ms s a = (t, rs) -> simple_target t ->
   word_at ms' s a = word_at ms s a ->
   (forall r i b, In r (removelast rs) -> word_in r i b -> word_at ms' i b = word_at ms i b) ->
+  (forall p, tag_pos t = Some p -> word_at ms' (fst p) (snd p) = word_at ms (fst p) (snd p)) ->
   resolve_ptr ms' s a = (t, rs).
 Proof.
-  intros G H S W0 Wp. unfold resolve_ptr in *. rewrite W0.
-  destruct (word_at ms s a) as [w|]; [|inversion H; subst; cbn in S; contradiction].
+  intros G H S W0 Wp Wt. unfold resolve_ptr in *. rewrite W0.
+  destruct (word_at ms s a) as [w|]; [|bad_target H S].
   destruct (w =? 0); [exact H|].
   destruct (f_A w =? 3); [exact H|].
   destruct (f_A w =? 2).
   - cbv zeta in *. destruct (f_B w =? 0).
-    + destruct (negb (in_seg ms (f_seg w) (8 * f_padoff w) 8)) eqn:E; [inversion H; subst; cbn in S; contradiction|].
+    + destruct (negb (in_seg ms (f_seg w) (8 * f_padoff w) 8)) eqn:E; [bad_target H S|].
       assert (E' : in_seg ms (f_seg w) (8 * f_padoff w) 8 = true) by (destruct (in_seg ms _ _ _); auto; discriminate).
       rewrite (in_seg_mono _ _ _ _ _ G E'). cbn [negb].
-      destruct (word_at ms (f_seg w) (8 * f_padoff w)) as [pw|] eqn:EW; [|inversion H; subst; cbn in S; contradiction].
-      destruct ((pw =? 0) || (2 <=? f_A pw)) eqn:EB; [inversion H; subst; cbn in S; contradiction|].
+      destruct (word_at ms (f_seg w) (8 * f_padoff w)) as [pw|] eqn:EW; [|bad_target H S].
+      destruct ((pw =? 0) || (2 <=? f_A pw)) eqn:EB; [bad_target H S|].
       destruct (decode_obj ms (f_seg w) (8 * f_padoff w + 8) pw) as [t0 rs0] eqn:ED.
-      inversion H; subst t rs.
+      assert (Et : t0 = t) by (apply (f_equal fst) in H; exact H).
+      assert (Er : mkReg (f_seg w) (8 * f_padoff w) 8 :: rs0 = rs) by (apply (f_equal snd) in H; exact H).
+      subst t rs.
       rewrite (Wp (mkReg (f_seg w) (8 * f_padoff w) 8) (f_seg w) (8 * f_padoff w)).
-      * rewrite EW, EB. rewrite (decode_obj_stable _ _ _ _ _ _ _ G ED S). reflexivity.
+      * rewrite EW, EB. rewrite (decode_obj_stable _ _ _ _ _ _ _ G ED S Wt). reflexivity.
       * (* the pad is not the last region: the object follows *)
         destruct (decode_obj_one _ _ _ _ _ _ ED S) as [r0 ->]. cbn [removelast]. left. reflexivity.
       * unfold word_in. cbn. lia.
-    + destruct (negb (in_seg ms (f_seg w) (8 * f_padoff w) 16)) eqn:E; [inversion H; subst; cbn in S; contradiction|].
+    + destruct (negb (in_seg ms (f_seg w) (8 * f_padoff w) 16)) eqn:E; [bad_target H S|].
       assert (E' : in_seg ms (f_seg w) (8 * f_padoff w) 16 = true) by (destruct (in_seg ms _ _ _); auto; discriminate).
       rewrite (in_seg_mono _ _ _ _ _ G E'). cbn [negb].
-      destruct (word_at ms (f_seg w) (8 * f_padoff w)) as [fw|] eqn:EW1; [|inversion H; subst; cbn in S; contradiction].
-      destruct (word_at ms (f_seg w) (8 * f_padoff w + 8)) as [tag|] eqn:EW2; [|inversion H; subst; cbn in S; contradiction].
-      destruct (negb ((f_A fw =? 2) && (f_B fw =? 0))) eqn:EB1; [inversion H; subst; cbn in S; contradiction|].
-      destruct ((2 <=? f_A tag) || negb (f_off tag =? 0)) eqn:EB2; [inversion H; subst; cbn in S; contradiction|].
+      destruct (word_at ms (f_seg w) (8 * f_padoff w)) as [fw|] eqn:EW1; [|bad_target H S].
+      destruct (word_at ms (f_seg w) (8 * f_padoff w + 8)) as [tag|] eqn:EW2; [|bad_target H S].
+      destruct (negb ((f_A fw =? 2) && (f_B fw =? 0))) eqn:EB1; [bad_target H S|].
+      destruct ((2 <=? f_A tag) || negb (f_off tag =? 0)) eqn:EB2; [bad_target H S|].
       destruct (decode_obj ms (f_seg fw) (8 * f_padoff fw) tag) as [t0 rs0] eqn:ED.
-      inversion H; subst t rs.
+      assert (Et : t0 = t) by (apply (f_equal fst) in H; exact H).
+      assert (Er : mkReg (f_seg w) (8 * f_padoff w) 16 :: rs0 = rs) by (apply (f_equal snd) in H; exact H).
+      subst t rs.
       assert (NL : In (mkReg (f_seg w) (8 * f_padoff w) 16) (removelast (mkReg (f_seg w) (8 * f_padoff w) 16 :: rs0))).
       { destruct (decode_obj_one _ _ _ _ _ _ ED S) as [r0 ->]. left. reflexivity. }
       rewrite (Wp _ (f_seg w) (8 * f_padoff w) NL) by (unfold word_in; cbn; lia).
       rewrite (Wp _ (f_seg w) (8 * f_padoff w + 8) NL) by (unfold word_in; cbn; lia).
-      rewrite EW1, EW2, EB1, EB2. rewrite (decode_obj_stable _ _ _ _ _ _ _ G ED S). reflexivity.
-  - destruct (decode_obj ms s (a + 8) w) as [t0 rs0] eqn:ED. inversion H; subst.
-    rewrite (decode_obj_stable _ _ _ _ _ _ _ G ED S). reflexivity.
+      rewrite EW1, EW2, EB1, EB2. rewrite (decode_obj_stable _ _ _ _ _ _ _ G ED S Wt). reflexivity.
+  - destruct (decode_obj ms s (a + 8) w) as [t0 rs0] eqn:ED.
+    assert (Et : t0 = t) by (apply (f_equal fst) in H; exact H).
+    assert (Er : rs0 = rs) by (apply (f_equal snd) in H; exact H). subst.
+    rewrite (decode_obj_stable _ _ _ _ _ _ _ G ED S Wt). reflexivity.
 Qed.
 
 (* ------------------------------------------------------------------ objects *)
-(* the handles constructors return are the objects of the table (composite lists are not part
-   of this sub-language yet) *)
+(* the handles constructors return are the objects of the table; a composite list's region
+   starts with its tag word, one word before the handle's offset *)
 Definition obj_bytes (h : Ptr) : Z :=
   match p_kind h with KStruct => totalSize (p_size h) | KList => list_allocSize h | KIface => 0 end.
-Definition obj_reg (h : Ptr) : region := mkReg (p_seg h) (p_off h) (padToWord (obj_bytes h)).
+Definition obj_start (h : Ptr) : Z := if p_comp h then p_off h - 8 else p_off h.
+Definition obj_reg (h : Ptr) : region := mkReg (p_seg h) (obj_start h) (padToWord (obj_bytes h)).
 
 Definition et_of (h : Ptr) : Z :=
   if p_bit h then 1 else if PointerCount (p_size h) =? 1 then 6
@@ -364,23 +390,32 @@ Definition et_of (h : Ptr) : Z :=
 Definition tgt_of (h : Ptr) : target :=
   match p_kind h with
   | KStruct => GStruct (p_seg h) (p_off h) (DataSize (p_size h) / 8) (PointerCount (p_size h))
-  | KList => GList (p_seg h) (p_off h) (et_of h) (p_len h)
+  | KList => if p_comp h then GComp (p_seg h) (p_off h) (p_len h) (DataSize (p_size h) / 8) (PointerCount (p_size h))
+             else GList (p_seg h) (p_off h) (et_of h) (p_len h)
   | KIface => GNull
   end.
 
 (* the shapes constructors produce *)
+Definition wc_of (h : Ptr) : Z := DataSize (p_size h) / 8 + PointerCount (p_size h).
 Definition shape_ok (h : Ptr) : Prop :=
   match p_kind h with
-  | KStruct => os_wf (p_size h)
-  | KList => p_comp h = false /\ 0 <= p_len h < 536870912 /\
-             (p_bit h = true /\ p_size h = mkOS 0 0 \/
-              p_bit h = false /\ (p_size h = mkOS 0 1 \/ exists d, p_size h = mkOS d 0 /\ (d = 0 \/ d = 1 \/ d = 2 \/ d = 4 \/ d = 8)))
+  | KStruct => os_wf (p_size h) /\ p_comp h = false
+  | KList => 0 <= p_len h < 536870912 /\
+             (p_comp h = false /\
+              (p_bit h = true /\ p_size h = mkOS 0 0 \/
+               p_bit h = false /\ (p_size h = mkOS 0 1 \/ exists d, p_size h = mkOS d 0 /\ (d = 0 \/ d = 1 \/ d = 2 \/ d = 4 \/ d = 8))) \/
+              p_comp h = true /\ p_bit h = false /\ os_wf (p_size h) /\ p_len h * wc_of h < 536870911)
   | KIface => False
   end.
 
 Definition good (ms : segs) (h : Ptr) : Prop :=
   shape_ok h /\ 0 <= p_seg h < 4294967296 /\
-  in_seg ms (p_seg h) (p_off h) (r_size (obj_reg h)) = true /\ p_off h <= 4294967288.
+  in_seg ms (p_seg h) (obj_start h) (r_size (obj_reg h)) = true /\ p_off h <= 4294967288.
+
+(* the tag word of a composite list *)
+Definition tag_ok (ms : segs) (h : Ptr) : Prop :=
+  p_kind h = KList -> p_comp h = true ->
+  exists tag, rawStructPointer (p_len h) (p_size h) = Some tag /\ word_at ms (p_seg h) (p_off h - 8) = Some tag.
 
 (* the pointer word writePtr places for an object *)
 Definition raw_of (h : Ptr) : res Z :=
@@ -389,6 +424,14 @@ Definition raw_of (h : Ptr) : res Z :=
   | KList => list_raw h
   | KIface => Err
   end.
+
+Lemma fields_tag n sz : os_wf sz -> 0 <= n < 536870912 ->
+  exists tag, rawStructPointer n sz = Some tag /\ 0 <= tag < 18446744073709551616 /\ f_A tag = 0 /\
+    (tag / 4) mod two30 = n /\ f_dw tag = DataSize sz / 8 /\ f_pc tag = PointerCount sz.
+Proof.
+  intros Hw Hn. rewrite rawStructPointer_sum by assumption. destruct Hw as (Hd & Hm & Hp).
+  eexists. split; [reflexivity|]. unf. repeat split; lia.
+Qed.
 
 Lemma list_bytes_eq n bits : 0 <= n < 536870912 -> (bits = 0 \/ bits = 1 \/ bits = 8 \/ bits = 16 \/ bits = 32 \/ bits = 64) ->
   (n * bits + 63) / 64 * 8 = ((n * bits + 7) / 8 + 7) / 8 * 8.
@@ -411,15 +454,33 @@ Proof.
   rewrite T. rewrite times_small by lia. reflexivity.
 Qed.
 
-Lemma obj_decode (ms : segs) h :
-  p_valid h = true -> good ms h -> (p_kind h = KStruct -> os_isZero (p_size h) = false) ->
-  exists raw, raw_of h = Ok raw /\ raw_word raw /\
-    decode_obj ms (p_seg h) (p_off h) raw = (tgt_of h, [obj_reg h]).
+Lemma totalSize_wf sz : os_wf sz -> totalSize sz = 8 * (DataSize sz / 8 + PointerCount sz).
+Proof. intros (Hd & Hm & Hp). unfold totalSize, pointerSize, u32. lia. Qed.
+
+Lemma list_alloc_comp h :
+  p_valid h = true -> p_comp h = true -> p_bit h = false -> os_wf (p_size h) ->
+  0 <= p_len h -> p_len h * wc_of h < 536870911 ->
+  list_allocSize h = 8 + 8 * (p_len h * wc_of h).
 Proof.
-  intros Hv (Hs & Hseg & Hin & Hoff) Hnz. unfold raw_of, tgt_of, obj_reg, obj_bytes, shape_ok in *.
+  intros Hv Hc Hb Hw Hn Ht. unfold list_allocSize. rewrite Hv, Hb, Hc. cbn [negb].
+  rewrite (totalSize_wf _ Hw). fold (wc_of h).
+  assert (W0 : 0 <= wc_of h) by (unfold wc_of; destruct Hw as (Hd & Hm & Hp); lia).
+  unfold times. cbv zeta.
+  assert (E : 8 * wc_of h * p_len h = 8 * (p_len h * wc_of h)) by ring. rewrite E.
+  set (k := p_len h * wc_of h) in *. assert (K0 : 0 <= k) by (unfold k; nia). clearbody k.
+  destruct ((8 * k >? maxSegmentSize) || (8 * k <? 0)) eqn:EB; [unfold maxSegmentSize in EB; lia|].
+  unfold u32. lia.
+Qed.
+
+Lemma obj_decode (ms : segs) h :
+  p_valid h = true -> good ms h -> tag_ok ms h -> (p_kind h = KStruct -> os_isZero (p_size h) = false) ->
+  exists raw, raw_of h = Ok raw /\ raw_word raw /\
+    decode_obj ms (p_seg h) (obj_start h) raw = (tgt_of h, [obj_reg h]).
+Proof.
+  intros Hv (Hs & Hseg & Hin & Hoff) Htag Hnz. unfold raw_of, tgt_of, obj_reg, obj_bytes, shape_ok in *.
   destruct (p_kind h) eqn:EK.
   - (* struct *)
-    specialize (Hnz eq_refl).
+    specialize (Hnz eq_refl). destruct Hs as [Hs Hcomp]. unfold obj_start in *. rewrite Hcomp in *.
     destruct (fields_struct (p_size h) Hs) as (raw & E & R0 & R1 & R2 & R3 & R4 & R5).
     exists raw. rewrite E. cbn [of_opt_panic]. split; [reflexivity|].
     destruct Hs as (Hd & Hm & Hp).
@@ -434,7 +495,8 @@ Proof.
       rewrite R4, R2, R3. replace (p_off h + 8 * 0) with (p_off h) by lia.
       cbn [r_size] in Hin. rewrite PW in Hin. rewrite Hin. rewrite PW. reflexivity.
   - (* list *)
-    destruct Hs as (Hc & Hn & Hk).
+    destruct Hs as (Hn & [(Hc & Hk)|(Hc & Hb & Hw & Ht)]).
+    + unfold obj_start in *. rewrite Hc in *.
     assert (LR : exists et bits, list_raw h = Ok (rawListPointer 0 et (p_len h)) /\ et = et_of h /\ 0 <= et < 7 /\
                    et_bits et = bits /\
                    padToWord (list_allocSize h) = (p_len h * bits + 63) / 64 * 8).
@@ -468,11 +530,36 @@ Proof.
     exists (rawListPointer 0 et (p_len h)). split; [exact L1|].
     destruct (fields_list et (p_len h) ltac:(lia) Hn) as (F0 & F1 & F2 & F3 & F4). cbv zeta in *.
     set (raw := rawListPointer 0 et (p_len h)) in *. split.
-    + unfold raw_word. split; [exact F0|]. split; [lia|]. split; [exact F4|]. right. lia.
-    + unfold decode_obj. cbv zeta. unfold f_A. rewrite F1. change (1 =? 0) with false. cbv iota.
+    * unfold raw_word. split; [exact F0|]. split; [lia|]. split; [exact F4|]. right. lia.
+    * unfold decode_obj. cbv zeta. unfold f_A. rewrite F1. change (1 =? 0) with false. cbv iota.
       rewrite F2, F3, F4. destruct (et <? 7) eqn:E7; [|lia]. rewrite L4.
       replace (p_off h + 8 * 0) with (p_off h) by lia.
       cbn [r_size] in Hin. rewrite L5 in Hin. rewrite Hin. rewrite L5, L2. reflexivity.
+    + (* composite list *)
+      unfold obj_start in *. rewrite Hc in *.
+      destruct (Htag EK Hc) as (tag & Etag & Wtag).
+      assert (W0 : 0 <= wc_of h) by (unfold wc_of; destruct Hw as (Hd & Hm & Hp); lia).
+      assert (K0 : 0 <= p_len h * wc_of h) by nia.
+      assert (TW : totalWordCount (p_size h) = Some (wc_of h)).
+      { unfold totalWordCount, dataWordCount, wc_of. destruct Hw as (Hd & Hm & Hp). rewrite Hm. cbn [Z.eqb].
+        f_equal. apply s32_id. lia. }
+      assert (S32 : s32 (p_len h * wc_of h) = p_len h * wc_of h) by (apply s32_id; lia).
+      exists (rawListPointer 0 7 (p_len h * wc_of h)). split.
+      { unfold list_raw. rewrite Hv, Hc, TW. cbn [negb]. now rewrite S32. }
+      destruct (fields_list 7 (p_len h * wc_of h) ltac:(lia) ltac:(lia)) as (F0 & F1 & F2 & F3 & F4). cbv zeta in *.
+      set (raw := rawListPointer 0 7 (p_len h * wc_of h)) in *. split.
+      * unfold raw_word. split; [exact F0|]. split; [lia|]. split; [exact F4|]. right. lia.
+      * rewrite (list_alloc_comp h) in * by (auto; lia).
+        assert (PW : padToWord (8 + 8 * (p_len h * wc_of h)) = 8 + 8 * (p_len h * wc_of h)) by (unfold padToWord, u32; lia).
+        rewrite PW in *. cbn [r_size] in Hin.
+        destruct (fields_tag (p_len h) (p_size h) Hw Hn) as (tag' & Etag' & T0 & T1 & T2 & T3 & T4).
+        rewrite Etag in Etag'. assert (tag' = tag) by congruence. subst tag'.
+        unfold decode_obj. cbv zeta. unfold f_A at 1. rewrite F1. change (1 =? 0) with false. cbv iota.
+        rewrite F2, F3, F4. change (7 <? 7) with false. cbv iota.
+        replace (p_off h - 8 + 8 * 0) with (p_off h - 8) by lia.
+        rewrite Hin. cbn [negb]. rewrite Wtag. rewrite T1. change (0 =? 0) with true. cbn [negb].
+        rewrite T2, T3, T4. fold (wc_of h). rewrite Z.eqb_refl. cbn [negb].
+        replace (p_off h - 8 + 8) with (p_off h) by lia. reflexivity.
   - destruct Hs.
 Qed.
 
@@ -513,8 +600,12 @@ Definition in_msg (ms : segs) (r : region) : Prop := in_seg ms (r_seg r) (r_star
 
 Definition slot_ok (ms : segs) (pads : list region) (objs : list Ptr) (q : Z * Z) : Prop :=
   exists t rs, resolve_ptr ms (fst q) (snd q) = (t, rs) /\ simple_target t /\
-    (rs = [] \/ exists ps r, rs = ps ++ [r] /\ incl ps pads /\
-        (r_size r = 0 \/ exists h, In h objs /\ r = obj_reg h /\ t = tgt_of h)).
+    (rs = [] /\ no_tag t \/ exists ps r, rs = ps ++ [r] /\ incl ps pads /\
+        (r_size r = 0 /\ no_tag t \/ exists h, In h objs /\ r = obj_reg h /\ t = tgt_of h)).
+
+(* a set of written bytes that spares the tag word of a composite list *)
+Definition tag_free (R : Z -> Z -> Prop) (h : Ptr) : Prop :=
+  p_kind h = KList -> p_comp h = true -> forall k, p_off h - 8 <= k < p_off h -> ~ R (p_seg h) k.
 
 Definition regsO (objs : list Ptr) : list region := root_reg :: map obj_reg objs.
 Definition all_regs (objs : list Ptr) (pads : list region) : list region := regsO objs ++ pads.
@@ -526,6 +617,7 @@ Record hinv (m : bmsg) (objs : list Ptr) (pads : list region) : Prop := mkHinv {
   hi_small : segs_small m;
   hi_nsegs : nsegs m < 4294967296;
   hi_good : forall h, In h objs -> p_valid h = true /\ good (bm_data m) h;
+  hi_tags : forall h, In h objs -> tag_ok (bm_data m) h;
   hi_in : forall r, In r (all_regs objs pads) -> in_msg (bm_data m) r;
   hi_pads : forall r, In r pads -> 0 < r_size r;
   hi_disjO : ord_disjoint (regsO objs);
@@ -543,29 +635,56 @@ Proof.
     rewrite Nat.sub_diag. cbn [nth]. apply Hx. apply nth_In. lia.
 Qed.
 
+(* the pointer slots of a composite list *)
+Lemma comp_slot h q : p_kind h = KList -> p_comp h = true -> In q (slots h) ->
+  exists e k, 0 <= e < p_len h /\ 0 <= k < PointerCount (p_size h) /\ fst q = p_seg h /\
+    snd q = p_off h + 8 * (e * wc_of h + DataSize (p_size h) / 8) + 8 * k.
+Proof.
+  intros Ek Hc Hq. unfold slots, tgt_of in Hq. rewrite Ek, Hc in Hq. cbn [children] in Hq.
+  apply in_flat_map in Hq. destruct Hq as (e & He & Hq).
+  unfold zseq in He. apply in_map_iff in He. destruct He as (e0 & <- & He0). apply in_seq in He0.
+  apply in_map_iff in Hq. destruct Hq as (a & <- & Ha).
+  unfold zseq in Ha. apply in_map_iff in Ha. destruct Ha as (k & <- & Hk). apply in_seq in Hk.
+  exists (Z.of_nat e0), (Z.of_nat k). cbn [fst snd]. unfold wc_of. repeat split; try lia.
+Qed.
+
 (* a slot's own word lies inside its object (or is the root word) *)
 Lemma slot_in_obj (ms : segs) h q : p_valid h = true -> good ms h -> In q (slots h) ->
-  fst q = p_seg h /\ p_off h <= snd q /\ snd q + 8 <= p_off h + r_size (obj_reg h) /\ snd q mod 8 = p_off h mod 8.
+  fst q = p_seg h /\ p_off h <= snd q /\ snd q + 8 <= obj_start h + r_size (obj_reg h) /\ snd q mod 8 = p_off h mod 8.
 Proof.
-  intros Hv (Hs & Hseg & Hin & Hoff) Hq. unfold slots, tgt_of, obj_reg, obj_bytes, shape_ok in *.
-  destruct (p_kind h) eqn:EK; cbn [children] in Hq.
-  - destruct Hs as (Hd & Hm & Hp). apply in_map_iff in Hq. destruct Hq as (a & <- & Ha).
+  intros Hv (Hs & Hseg & Hin & Hoff) Hq.
+  destruct (p_kind h) eqn:EK.
+  - unfold slots, tgt_of, obj_reg, obj_bytes, shape_ok, obj_start in *. rewrite EK in *. cbn [children] in Hq.
+    destruct Hs as ((Hd & Hm & Hp) & Hc). rewrite Hc. apply in_map_iff in Hq. destruct Hq as (a & <- & Ha).
     unfold zseq in Ha. apply in_map_iff in Ha. destruct Ha as (k & <- & Hk). apply in_seq in Hk. cbn [fst snd r_size].
     assert (TS : totalSize (p_size h) = DataSize (p_size h) + 8 * PointerCount (p_size h)) by (unfold totalSize, pointerSize, u32; lia).
     rewrite TS. unfold padToWord, u32. lia.
-  - destruct Hs as (Hc & Hn & Hk). destruct (et_of h =? 6) eqn:E6; [|destruct Hq].
-    apply in_map_iff in Hq. destruct Hq as (a & <- & Ha).
-    unfold zseq in Ha. apply in_map_iff in Ha. destruct Ha as (k & <- & Hk'). apply in_seq in Hk'. cbn [fst snd r_size].
-    (* et = 6 only for pointer lists *)
-    assert (PL : p_bit h = false /\ p_size h = mkOS 0 1).
-    { unfold et_of in E6. destruct Hk as [[Hb Hsz]|[Hb [Hsz|(d & Hsz & Hd)]]].
-      - rewrite Hb in E6. discriminate.
-      - auto.
-      - rewrite Hb, Hsz in E6. cbn [PointerCount DataSize] in E6. change (0 =? 1) with false in E6. cbv iota zeta in E6.
-        destruct Hd as [->|[->|[->|[->| ->]]]]; discriminate. }
-    destruct PL as [Pb Ps].
-    rewrite (list_alloc_plain h 0 1) by (auto; lia). unfold padToWord, u32. lia.
-  - destruct Hq.
+  - unfold shape_ok in Hs. rewrite EK in Hs. destruct Hs as (Hn & [(Hc & Hk)|(Hc & Hb & Hw & Ht)]).
+    + unfold slots, tgt_of, obj_reg, obj_bytes, obj_start in *. rewrite EK in *. rewrite Hc in *. cbn [children] in Hq.
+      destruct (et_of h =? 6) eqn:E6; [|destruct Hq].
+      apply in_map_iff in Hq. destruct Hq as (a & <- & Ha).
+      unfold zseq in Ha. apply in_map_iff in Ha. destruct Ha as (k & <- & Hk'). apply in_seq in Hk'. cbn [fst snd r_size].
+      (* et = 6 only for pointer lists *)
+      assert (PL : p_bit h = false /\ p_size h = mkOS 0 1).
+      { unfold et_of in E6. destruct Hk as [[Hb Hsz]|[Hb [Hsz|(d & Hsz & Hd)]]].
+        - rewrite Hb in E6. discriminate.
+        - auto.
+        - rewrite Hb, Hsz in E6. cbn [PointerCount DataSize] in E6. change (0 =? 1) with false in E6. cbv iota zeta in E6.
+          destruct Hd as [->|[->|[->|[->| ->]]]]; discriminate. }
+      destruct PL as [Pb Ps].
+      rewrite (list_alloc_plain h 0 1) by (auto; lia). unfold padToWord, u32. lia.
+    + destruct (comp_slot h q EK Hc Hq) as (e & k & He & Hk & Q1 & Q2).
+      unfold obj_reg, obj_bytes, obj_start. rewrite EK, Hc. cbn [r_size].
+      rewrite (list_alloc_comp h) by (auto; lia).
+      assert (W0 : 0 <= wc_of h) by (unfold wc_of; destruct Hw as (Hd & Hm & Hp); lia).
+      assert (K1 : e * wc_of h + wc_of h <= p_len h * wc_of h) by nia.
+      assert (K2 : 0 <= e * wc_of h) by nia.
+      assert (PW : padToWord (8 + 8 * (p_len h * wc_of h)) = 8 + 8 * (p_len h * wc_of h)) by (unfold padToWord, u32; lia).
+      rewrite PW. destruct Hw as (Hd & Hm & Hp). unfold wc_of in *.
+      set (a := e * (DataSize (p_size h) / 8 + PointerCount (p_size h))) in *.
+      set (b := p_len h * (DataSize (p_size h) / 8 + PointerCount (p_size h))) in *. clearbody a b.
+      split; [exact Q1|]. rewrite Q2. lia.
+  - unfold slots, tgt_of in Hq. rewrite EK in Hq. destruct Hq.
 Qed.
 
 Lemma in_seg_elim (ms : segs) sid st sz : in_seg ms sid st sz = true ->
@@ -575,32 +694,99 @@ Proof. unfold in_seg. intros H. repeat (apply andb_prop in H; destruct H as [H ?
 Lemma removelast_snoc {A} (l : list A) x : removelast (l ++ [x]) = l.
 Proof. apply removelast_last. Qed.
 
-(* a slot whose own word and whose pads are not touched stays valid *)
-Lemma slot_ok_frame m m' (R : Z -> Z -> Prop) pads objs pads' objs' q :
+Lemma tag_ok_frame m m' (R : Z -> Z -> Prop) h :
+  keeps m m' R -> nsegs m <= nsegs m' -> tag_ok (bm_data m) h -> tag_free R h -> tag_ok (bm_data m') h.
+Proof.
+  intros K Hn T F Ek Hc. destruct (T Ek Hc) as (tag & E1 & E2). exists tag. split; [exact E1|].
+  destruct (word_at_range _ _ _ _ E2) as (G1 & G2 & G3). rewrite zlen_bm in G1. rewrite seg_len_bm in G3.
+  rewrite <- E2. apply (keeps_word m m' R); auto; try lia.
+  intros k Hk. apply (F Ek Hc). lia.
+Qed.
+
+Lemma tag_pos_tgt h p : tag_pos (tgt_of h) = Some p -> p_kind h = KList /\ p_comp h = true /\ p = (p_seg h, p_off h - 8).
+Proof.
+  unfold tgt_of. destruct (p_kind h); cbn; try discriminate. destruct (p_comp h); cbn; try discriminate.
+  intros E. injection E as <-. auto.
+Qed.
+
+(* ... and resolves exactly as before *)
+Lemma slot_resolve_frame m m' (R : Z -> Z -> Prop) pads objs q :
   (forall r, In r pads -> in_msg (bm_data m) r) ->
+  (forall h, In h objs -> tag_ok (bm_data m) h) ->
   keeps m m' R -> nsegs m <= nsegs m' ->
   (forall k, snd q <= k < snd q + 8 -> ~ R (fst q) k) ->
   (forall r, In r pads -> forall k, r_start r <= k < r_start r + r_size r -> ~ R (r_seg r) k) ->
+  (forall h, In h objs -> tag_free R h) ->
+  slot_ok (bm_data m) pads objs q ->
+  resolve_ptr (bm_data m') (fst q) (snd q) = resolve_ptr (bm_data m) (fst q) (snd q).
+Proof.
+  intros Hin Htg K Hn Hq Hp Hf (t & rs & E & S & C). rewrite E.
+  apply (resolve_stable (bm_data m)); auto.
+  - eapply keeps_grows; eauto.
+  - unfold resolve_ptr in E. destruct (word_at (bm_data m) (fst q) (snd q)) as [w|] eqn:EW;
+      [|bad_target E S].
+    destruct (word_at_range _ _ _ _ EW) as (G1 & G2 & G3). rewrite zlen_bm in G1. rewrite seg_len_bm in G3.
+    rewrite <- EW. apply (keeps_word m m' R); auto.
+  - intros r i b Hr Hw.
+    destruct C as [[-> _]|(ps & r0 & -> & Ips & _)]; [destruct Hr|].
+    rewrite removelast_snoc in Hr. specialize (Hin r (Ips r Hr)). unfold in_msg in Hin.
+    destruct (in_seg_elim _ _ _ _ Hin) as (G1 & G2 & G3 & G4 & _). rewrite zlen_bm in G1. rewrite seg_len_bm in G4.
+    destruct Hw as (-> & W1 & W2).
+    apply (keeps_word m m' R); auto; try lia.
+    intros k Hk. apply (Hp r (Ips r Hr)). lia.
+  - intros p Hp'.
+    assert (HT : exists h, In h objs /\ t = tgt_of h).
+    { destruct C as [[_ N]|(ps & r0 & _ & _ & [[_ N]|(h & Hh & _ & Et)])].
+      - destruct t; cbn in N, Hp'; try contradiction; discriminate.
+      - destruct t; cbn in N, Hp'; try contradiction; discriminate.
+      - exists h. auto. }
+    destruct HT as (h & Hh & ->). destruct (tag_pos_tgt _ _ Hp') as (Ek & Hc & ->). cbn [fst snd].
+    destruct (Htg h Hh Ek Hc) as (tag & _ & E2).
+    destruct (word_at_range _ _ _ _ E2) as (G1 & G2 & G3). rewrite zlen_bm in G1. rewrite seg_len_bm in G3.
+    apply (keeps_word m m' R); auto; try lia.
+    intros k Hk. apply (Hf h Hh Ek Hc). lia.
+Qed.
+
+(* a slot whose own word, whose pads and whose target's tag word are not touched stays valid *)
+Lemma slot_ok_frame m m' (R : Z -> Z -> Prop) pads objs pads' objs' q :
+  (forall r, In r pads -> in_msg (bm_data m) r) ->
+  (forall h, In h objs -> tag_ok (bm_data m) h) ->
+  keeps m m' R -> nsegs m <= nsegs m' ->
+  (forall k, snd q <= k < snd q + 8 -> ~ R (fst q) k) ->
+  (forall r, In r pads -> forall k, r_start r <= k < r_start r + r_size r -> ~ R (r_seg r) k) ->
+  (forall h, In h objs -> tag_free R h) ->
   incl pads pads' -> incl objs objs' ->
   slot_ok (bm_data m) pads objs q -> slot_ok (bm_data m') pads' objs' q.
 Proof.
-  intros Hin K Hn Hq Hp Ip Io (t & rs & E & S & C).
+  intros Hin Htg K Hn Hq Hp Hf Ip Io (t & rs & E & S & C).
   exists t, rs. split; [|split; [exact S|]].
   - apply (resolve_stable (bm_data m)); auto.
     + eapply keeps_grows; eauto.
     + (* the slot word *)
       unfold resolve_ptr in E. destruct (word_at (bm_data m) (fst q) (snd q)) as [w|] eqn:EW;
-        [|inversion E; subst; cbn in S; contradiction].
+        [|bad_target E S].
       destruct (word_at_range _ _ _ _ EW) as (G1 & G2 & G3). rewrite zlen_bm in G1. rewrite seg_len_bm in G3.
       rewrite <- EW. apply (keeps_word m m' R); auto.
     + intros r i b Hr Hw.
-      destruct C as [->|(ps & r0 & -> & Ips & _)]; [destruct Hr|].
+      destruct C as [[-> _]|(ps & r0 & -> & Ips & _)]; [destruct Hr|].
       rewrite removelast_snoc in Hr. specialize (Hin r (Ips r Hr)). unfold in_msg in Hin.
       destruct (in_seg_elim _ _ _ _ Hin) as (G1 & G2 & G3 & G4 & _). rewrite zlen_bm in G1. rewrite seg_len_bm in G4.
       destruct Hw as (-> & W1 & W2).
       apply (keeps_word m m' R); auto; try lia.
       intros k Hk. apply (Hp r (Ips r Hr)). lia.
-  - destruct C as [->|(ps & r0 & -> & Ips & D)]; [left; reflexivity|right].
+    + (* the tag word of a composite target *)
+      intros p Hp'.
+      assert (HT : exists h, In h objs /\ t = tgt_of h).
+      { destruct C as [[_ N]|(ps & r0 & _ & _ & [[_ N]|(h & Hh & _ & Et)])].
+        - destruct t; cbn in N, Hp'; try contradiction; discriminate.
+        - destruct t; cbn in N, Hp'; try contradiction; discriminate.
+        - exists h. auto. }
+      destruct HT as (h & Hh & ->). destruct (tag_pos_tgt _ _ Hp') as (Ek & Hc & ->). cbn [fst snd].
+      destruct (Htg h Hh Ek Hc) as (tag & _ & E2).
+      destruct (word_at_range _ _ _ _ E2) as (G1 & G2 & G3). rewrite zlen_bm in G1. rewrite seg_len_bm in G3.
+      apply (keeps_word m m' R); auto; try lia.
+      intros k Hk. apply (Hf h Hh Ek Hc). lia.
+  - destruct C as [C|(ps & r0 & -> & Ips & D)]; [left; exact C|right].
     exists ps, r0. split; [reflexivity|]. split; [intros x Hx; apply Ip, Ips, Hx|].
     destruct D as [D|(h & Hh & D1 & D2)]; [left; exact D|right]. exists h. split; [apply Io, Hh|auto].
 Qed.
@@ -608,7 +794,7 @@ Qed.
 (* freshly allocated words are null pointers *)
 Lemma null_slot_ok (ms : segs) pads objs q : word_at ms (fst q) (snd q) = Some 0 -> slot_ok ms pads objs q.
 Proof.
-  intros H. exists GNull, []. unfold resolve_ptr. rewrite H. cbn. split; [reflexivity|]. split; [exact I|left; reflexivity].
+  intros H. exists GNull, []. unfold resolve_ptr. rewrite H. cbn. split; [reflexivity|]. split; [exact I|left; split; [reflexivity|exact I]].
 Qed.
 
 (* ------------------------------------------------------------------ a constructor adds an object *)
@@ -634,15 +820,18 @@ Qed.
 Lemma reg_disjoint_sym a b : reg_disjoint a b = true -> reg_disjoint b a = true.
 Proof. unfold reg_disjoint. intros H. lia. Qed.
 
+Lemma tag_free_none h : tag_free Rnone h.
+Proof. intros _ _ k _ X. exact X. Qed.
+
 Lemma hinv_add_obj m objs pads m' h :
   hinv m objs pads ->
   keeps m m' Rnone -> inv m' -> segs_small m' -> nsegs m <= nsegs m' -> nsegs m' < 4294967296 ->
-  p_valid h = true -> good (bm_data m') h ->
-  (r_size (obj_reg h) = 0 \/ zlen (mem m (p_seg h)) <= p_off h) ->
+  p_valid h = true -> good (bm_data m') h -> tag_ok (bm_data m') h ->
+  (r_size (obj_reg h) = 0 \/ zlen (mem m (p_seg h)) <= obj_start h) ->
   (forall q, In q (slots h) -> word_at (bm_data m') (fst q) (snd q) = Some 0) ->
   hinv m' (objs ++ [h]) pads.
 Proof.
-  intros [Hi Hsm Hns Hg Hin Hpd HdO HdP Hcr Hs] K I' Sm' Hn Hn' Hv Gd Fr Z.
+  intros [Hi Hsm Hns Hg Htg Hin Hpd HdO HdP Hcr Hs] K I' Sm' Hn Hn' Hv Gd Tg Fr Z.
   assert (G : grows (bm_data m) (bm_data m')) by (eapply keeps_grows; eauto).
   assert (RO : regsO (objs ++ [h]) = regsO objs ++ [obj_reg h]).
   { unfold regsO. rewrite map_app. reflexivity. }
@@ -654,6 +843,8 @@ Proof.
   - intros x Hx. apply in_app_or in Hx. destruct Hx as [Hx|[<-|[]]].
     + destruct (Hg x Hx) as [V Gx]. split; [exact V|eapply good_mono; eauto].
     + split; assumption.
+  - intros x Hx. apply in_app_or in Hx. destruct Hx as [Hx|[<-|[]]]; [|exact Tg].
+    apply (tag_ok_frame m m' Rnone); auto. apply tag_free_none.
   - intros r Hr. unfold all_regs in Hr. rewrite RO in Hr. apply in_app_or in Hr. destruct Hr as [Hr|Hr].
     + apply in_app_or in Hr. destruct Hr as [Hr|[<-|[]]].
       * eapply in_msg_mono; eauto.
@@ -670,6 +861,7 @@ Proof.
       - cbn in Hq. rewrite app_nil_r in Hq. right. exact Hq. }
     destruct Hq' as [Hq'|Hq'].
     + apply (slot_ok_frame m m' Rnone pads objs); auto.
+      * intros x _. apply tag_free_none.
       * apply incl_refl.
       * intros x Hx. apply in_or_app. left. exact Hx.
     + apply null_slot_ok. apply Z. exact Hq'.
@@ -680,13 +872,15 @@ Lemma hinv_frame m objs pads m' (R : Z -> Z -> Prop) pads' :
   hinv m objs pads -> keeps m m' R -> inv m' -> segs_small m' -> nsegs m <= nsegs m' -> nsegs m' < 4294967296 ->
   (forall q, In q ((0, 0) :: flat_map slots objs) -> forall k, snd q <= k < snd q + 8 -> ~ R (fst q) k) ->
   (forall r, In r pads -> forall k, r_start r <= k < r_start r + r_size r -> ~ R (r_seg r) k) ->
+  (forall h, In h objs -> tag_free R h) ->
   pads' = pads ->
   hinv m' objs pads'.
 Proof.
-  intros [Hi Hsm Hns Hg Hin Hpd HdO HdP Hcr Hs] K I' Sm' Hn Hn' Hq Hp ->.
+  intros [Hi Hsm Hns Hg Htg Hin Hpd HdO HdP Hcr Hs] K I' Sm' Hn Hn' Hq Hp Hf ->.
   assert (G : grows (bm_data m) (bm_data m')) by (eapply keeps_grows; eauto).
   constructor; auto.
   - intros x Hx. destruct (Hg x Hx) as [V Gx]. split; [exact V|eapply good_mono; eauto].
+  - intros x Hx. apply (tag_ok_frame m m' R); auto.
   - intros r Hr. eapply in_msg_mono; eauto.
   - intros q Hq'. apply (slot_ok_frame m m' R pads objs); auto.
     + intros r Hr. apply Hin. unfold all_regs. apply in_or_app. right. exact Hr.
@@ -714,21 +908,38 @@ Proof.
   rewrite (nth_indep _ root_reg (obj_reg nullPtr)) in D by (rewrite map_length; lia). rewrite map_nth in D. exact D.
 Qed.
 
-(* a byte range inside the data part of one object touches no pointer slot and no pad *)
+(* the tag word of a composite list is the first word of its region *)
+Lemma tag_in_reg (ms : segs) h : p_valid h = true -> good ms h -> p_kind h = KList -> p_comp h = true ->
+  obj_start h = p_off h - 8 /\ 8 <= r_size (obj_reg h).
+Proof.
+  intros Hv (Sh & _) Ek Hc. unfold shape_ok in Sh. rewrite Ek in Sh.
+  destruct Sh as (Hn & [(Hc' & _)|(_ & Hb & Hw & Ht)]); [congruence|].
+  unfold obj_start, obj_reg, obj_bytes. rewrite Ek, Hc. cbn [r_size]. split; [reflexivity|].
+  rewrite (list_alloc_comp h) by (auto; lia).
+  assert (W0 : 0 <= wc_of h) by (unfold wc_of; destruct Hw as (Hd & Hm & Hp); lia).
+  assert (K0 : 0 <= p_len h * wc_of h) by nia. unfold padToWord, u32. lia.
+Qed.
+
+(* a byte range inside one object, behind its tag word and beside its pointer slots, touches no
+   pointer slot, no pad and no tag word *)
 Lemma data_range_avoids m objs pads h lo hi :
-  hinv m objs pads -> In h objs -> p_off h <= lo -> hi <= p_off h + r_size (obj_reg h) ->
-  (forall q, In q (slots h) -> hi <= snd q) ->
+  hinv m objs pads -> In h objs -> p_off h <= lo -> hi <= obj_start h + r_size (obj_reg h) ->
+  (forall q, In q (slots h) -> hi <= snd q \/ snd q + 8 <= lo) ->
   let R := fun i k => i = p_seg h /\ lo <= k < hi in
   (forall q, In q ((0, 0) :: flat_map slots objs) -> forall k, snd q <= k < snd q + 8 -> ~ R (fst q) k) /\
-  (forall r, In r pads -> forall k, r_start r <= k < r_start r + r_size r -> ~ R (r_seg r) k).
+  (forall r, In r pads -> forall k, r_start r <= k < r_start r + r_size r -> ~ R (r_seg r) k) /\
+  (forall h', In h' objs -> tag_free R h').
 Proof.
-  intros H Hh Hlo Hhi Hsl R. split.
+  intros H Hh Hlo Hhi Hsl R.
+  assert (OS : obj_start h <= p_off h) by (unfold obj_start; destruct (p_comp h); lia).
+  split; [|split].
   - intros q Hq k Hk [E1 E2].
     destruct Hq as [<-|Hq].
     + cbn [fst snd] in *. pose proof (root_disjoint _ _ _ _ H Hh) as D. cbv [reg_disjoint root_reg obj_reg r_seg r_start r_size] in D, Hhi. lia.
     + apply in_flat_map in Hq. destruct Hq as (h' & Hh' & Hq).
       destruct (hi_good _ _ _ H h' Hh') as [V' G'].
       destruct (slot_in_obj _ _ _ V' G' Hq) as (S1 & S2 & S3 & _).
+      assert (OS' : obj_start h' <= p_off h') by (unfold obj_start; destruct (p_comp h'); lia).
       destruct (In_nth _ _ nullPtr Hh) as (n & Hn & En). destruct (In_nth _ _ nullPtr Hh') as (n' & Hn' & En').
       destruct (Nat.eq_dec n n') as [->|Hne].
       * rewrite En in En'. subst h'. specialize (Hsl q Hq). lia.
@@ -738,6 +949,14 @@ Proof.
     assert (Ha : In (obj_reg h) (regsO objs)) by (unfold regsO; right; apply in_map; exact Hh).
     pose proof (hi_cross _ _ _ H _ _ Ha Hr) as D. pose proof (hi_pads _ _ _ H r Hr) as Pz.
     destruct r as [rs rst rsz]. cbv [reg_disjoint obj_reg r_seg r_start r_size] in *. lia.
+  - intros h' Hh' Ek Hc k Hk [E1 E2].
+    destruct (hi_good _ _ _ H h' Hh') as [V' G'].
+    destruct (tag_in_reg _ _ V' G' Ek Hc) as [T1 T2].
+    destruct (In_nth _ _ nullPtr Hh) as (n & Hn & En). destruct (In_nth _ _ nullPtr Hh') as (n' & Hn' & En').
+    destruct (Nat.eq_dec n n') as [->|Hne].
+    + rewrite En in En'. subst h'. lia.
+    + pose proof (objs_disjoint _ _ _ n n' H Hne Hn Hn') as D. rewrite En, En' in D.
+      cbv [reg_disjoint obj_reg r_seg r_start r_size] in D, T2, Hhi. lia.
 Qed.
 
 (* ------------------------------------------------------------------ setting a pointer slot *)
@@ -810,27 +1029,56 @@ Proof.
     destruct (slot_in_obj _ _ _ V G Hq) as (S1 & S2 & S3 & S4).
     destruct G as (_ & _ & Gi & _). destruct (in_seg_elim _ _ _ _ Gi) as (G1 & G2 & G3 & G4 & G5).
     rewrite zlen_bm in G1. rewrite seg_len_bm in G4. rewrite S1.
+    assert (OS : obj_start h = p_off h \/ obj_start h = p_off h - 8) by (unfold obj_start; destruct (p_comp h); lia).
     repeat split; try lia. exists (obj_reg h). split; [right; apply in_map; exact Hh|].
     unfold obj_reg in *. cbn [r_seg r_start r_size] in *. lia.
 Qed.
 
-Lemma hinv_place m objs pads w q ht raw w' :
+(* writing a pointer slot spares every tag word *)
+Lemma slot_avoids_tags m objs pads q :
+  hinv m objs pads -> In q ((0, 0) :: flat_map slots objs) ->
+  forall h, In h objs -> tag_free (Rword (fst q) (snd q)) h.
+Proof.
+  intros H Hq h Hh Ek Hc k Hk [E1 E2].
+  destruct (hi_good _ _ _ H h Hh) as [V G].
+  destruct (tag_in_reg _ _ V G Ek Hc) as [T1 T2].
+  destruct Hq as [<-|Hq].
+  - cbn [fst snd] in *. pose proof (root_disjoint _ _ _ _ H Hh) as D.
+    cbv [reg_disjoint root_reg obj_reg r_seg r_start r_size] in D, T2. lia.
+  - apply in_flat_map in Hq. destruct Hq as (h' & Hh' & Hq).
+    destruct (hi_good _ _ _ H h' Hh') as [V' G'].
+    destruct (slot_in_obj _ _ _ V' G' Hq) as (S1 & S2 & S3 & _).
+    assert (OS' : obj_start h' <= p_off h') by (unfold obj_start; destruct (p_comp h'); lia).
+    destruct (In_nth _ _ nullPtr Hh) as (n & Hn & En). destruct (In_nth _ _ nullPtr Hh') as (n' & Hn' & En').
+    destruct (Nat.eq_dec n n') as [->|Hne].
+    + rewrite En in En'. subst h'. lia.
+    + pose proof (objs_disjoint _ _ _ n n' H Hne Hn Hn') as D. rewrite En, En' in D.
+      cbv [reg_disjoint obj_reg r_seg r_start r_size] in D, S3, T2. lia.
+Qed.
+
+Lemma hinv_place_full m objs pads w q ht raw w' :
   w_dst w = m -> hinv m objs pads ->
   In q ((0, 0) :: flat_map slots objs) -> In ht objs ->
   (p_kind ht = KStruct -> os_isZero (p_size ht) = false) ->
   raw_of ht = Ok raw ->
-  place w (fst q) (snd q) (p_seg ht) (p_off ht) raw = Ok w' ->
+  place w (fst q) (snd q) (p_seg ht) (obj_start ht) raw = Ok w' ->
   nsegs (w_dst w') < 4294967296 ->
-  exists pads', hinv (w_dst w') objs (pads ++ pads').
+  exists pads', hinv (w_dst w') objs (pads ++ pads') /\
+    resolve_ptr (bm_data (w_dst w')) (fst q) (snd q) = (tgt_of ht, pads' ++ [obj_reg ht]) /\
+    keeps m (w_dst w') (Rword (fst q) (snd q)) /\
+    (forall q', In q' ((0, 0) :: flat_map slots objs) -> ~ (fst q' = fst q /\ snd q' = snd q) ->
+       resolve_ptr (bm_data (w_dst w')) (fst q') (snd q') = resolve_ptr (bm_data m) (fst q') (snd q')).
 Proof.
   intros Ew H Hq Hht Hnz Hraw Hpl Hns'. subst m. set (m := w_dst w) in *.
   destruct (slot_geometry _ _ _ _ H Hq) as (Q1 & Q2 & Q3 & Q4 & (rq & Rq1 & Rq2 & Rq3 & Rq4)).
   destruct (hi_good _ _ _ H ht Hht) as [Vt Gt].
-  destruct (obj_decode (bm_data m) ht Vt Gt Hnz) as (raw' & Er & Rw & _). rewrite Hraw in Er. apply Ok_inj in Er. subst raw'.
+  pose proof (hi_tags _ _ _ H ht Hht) as Tt.
+  destruct (obj_decode (bm_data m) ht Vt Gt Tt Hnz) as (raw' & Er & Rw & _). rewrite Hraw in Er. apply Ok_inj in Er. subst raw'.
   pose proof Gt as (_ & Gs & Gi & Go). destruct (in_seg_elim _ _ _ _ Gi) as (T1 & T2 & T3 & T4 & T5).
   rewrite zlen_bm in T1. rewrite seg_len_bm in T4.
   destruct (hi_inv _ _ _ H) as [Hwf Har]. pose proof (hi_small _ _ _ H) as Hsm. pose proof (hi_nsegs _ _ _ H) as Hns.
-  assert (Hpre : place_pre m (fst q) (snd q) (p_seg ht) (p_off ht) raw).
+  assert (OSt : obj_start ht <= p_off ht) by (unfold obj_start; destruct (p_comp ht); lia).
+  assert (Hpre : place_pre m (fst q) (snd q) (p_seg ht) (obj_start ht) raw).
   { unfold place_pre. repeat split; auto; try (apply raw_word_ok; exact Rw); try (unfold nsegs in *; lia).
     all: try (apply (raw_word_ok _ Rw)). }
   destruct (place_layout _ _ _ _ _ _ _ Hpre Hpl) as (pads' & Hpd).
@@ -855,8 +1103,31 @@ Proof.
   assert (InP : forall a, In a pads -> in_msg (bm_data m) a).
   { intros a Ha. apply (hi_in _ _ _ H). unfold all_regs. apply in_or_app. right. exact Ha. }
   assert (L1 : (length pads' <= 1)%nat) by (destruct Hpd; cbn; lia).
+  assert (TF := slot_avoids_tags _ _ _ _ H Hq).
+  assert (PadF : forall r, In r pads -> forall k, r_start r <= k < r_start r + r_size r -> ~ Rword (fst q) (snd q) (r_seg r) k).
+  { intros r Hr k Hk [X1 X2].
+    pose proof (hi_cross _ _ _ H _ _ Rq1 Hr) as D. pose proof (hi_pads _ _ _ H r Hr) as Pz.
+    destruct r as [rs rst rsz]. destruct rq as [qs qst qsz]. cbv [reg_disjoint r_seg r_start r_size] in *. lia. }
+  assert (RQ : resolve_ptr (bm_data m') (fst q) (snd q) = (tgt_of ht, pads' ++ [obj_reg ht])).
+  { assert (PR := placed_resolve (bm_data m') (fst q) (snd q) (p_seg ht) (obj_start ht) raw (fun i => zlen (mem m i)) pads' Hpd Rw).
+    assert (Gt' : good (bm_data m') ht) by (eapply good_mono; eauto).
+    assert (Tt' : tag_ok (bm_data m') ht) by (apply (tag_ok_frame m m' (Rword (fst q) (snd q))); auto).
+    destruct (obj_decode (bm_data m') ht Vt Gt' Tt' Hnz) as (raw2 & Er2 & _ & DE). rewrite Hraw in Er2. apply Ok_inj in Er2. subst raw2.
+    rewrite PR; try lia.
+    - rewrite DE. reflexivity.
+    - pose proof (Hsm (fst q)). unfold maxSegmentSize in *. lia.
+    - rewrite zlen_bm. lia.
+    - intros p Hp. destruct (PF p Hp) as (Z1 & Z2 & Z3). unfold in_msg in Z3.
+      destruct (in_seg_elim _ _ _ _ Z3) as (Y1 & Y2 & Y3 & Y4 & Y5). rewrite seg_len_bm in Y4.
+      pose proof (Sm' (r_seg p)). unfold maxSegmentSize in *. lia. }
+  split; [|split; [exact RQ|split; [exact K|]]].
+  2:{ intros q' Hq' NE. apply (slot_resolve_frame m m' (Rword (fst q) (snd q)) pads objs); auto.
+      - apply (hi_tags _ _ _ H).
+      - intros k Hk [X1 X2]. destruct (slot_geometry _ _ _ _ H Hq') as (_ & _ & P3 & _). lia.
+      - apply (hi_slots _ _ _ H). exact Hq'. }
   constructor; auto.
   - intros x Hx. destruct (hi_good _ _ _ H x Hx) as [V Gx]. split; [exact V|eapply good_mono; eauto].
+  - intros x Hx. apply (tag_ok_frame m m' (Rword (fst q) (snd q))); auto. apply (hi_tags _ _ _ H); exact Hx.
   - intros r Hr. unfold all_regs in Hr. apply in_app_or in Hr. destruct Hr as [Hr|Hr].
     + eapply in_msg_mono; eauto.
     + apply in_app_or in Hr. destruct Hr as [Hr|Hr]; [eapply in_msg_mono; eauto|apply PF; exact Hr].
@@ -873,28 +1144,30 @@ Proof.
     destruct DEC as [[E1 E2]|NE].
     + (* the slot just written *)
       assert (Eq : q' = q) by (destruct q, q'; cbn in *; congruence). subst q'.
-      assert (PR := placed_resolve (bm_data m') (fst q) (snd q) (p_seg ht) (p_off ht) raw (fun i => zlen (mem m i)) pads' Hpd Rw).
-      assert (Gt' : good (bm_data m') ht) by (eapply good_mono; eauto).
-      destruct (obj_decode (bm_data m') ht Vt Gt' Hnz) as (raw2 & Er2 & _ & DE). rewrite Hraw in Er2. apply Ok_inj in Er2. subst raw2.
       exists (tgt_of ht), (pads' ++ [obj_reg ht]). split; [|split].
-      * rewrite PR; try lia.
-        -- rewrite DE. reflexivity.
-        -- pose proof (Hsm (fst q)). unfold maxSegmentSize in *. lia.
-        -- rewrite zlen_bm. lia.
-        -- intros p Hp. destruct (PF p Hp) as (Z1 & Z2 & Z3). unfold in_msg in Z3.
-           destruct (in_seg_elim _ _ _ _ Z3) as (Y1 & Y2 & Y3 & Y4 & Y5). rewrite seg_len_bm in Y4.
-           pose proof (Sm' (r_seg p)). unfold maxSegmentSize in *. lia.
-      * unfold tgt_of. destruct (p_kind ht); exact I.
+      * exact RQ.
+      * unfold tgt_of. destruct (p_kind ht); try exact I. destruct (p_comp ht); exact I.
       * right. exists pads', (obj_reg ht). split; [reflexivity|]. split; [intros x Hx; apply in_or_app; right; exact Hx|].
         right. exists ht. auto.
     + apply (slot_ok_frame m m' (Rword (fst q) (snd q)) pads objs); auto.
+      * apply (hi_tags _ _ _ H).
       * intros k Hk [X1 X2]. lia.
-      * intros r Hr k Hk [X1 X2].
-        pose proof (hi_cross _ _ _ H _ _ Rq1 Hr) as D. pose proof (hi_pads _ _ _ H r Hr) as Pz.
-        destruct r as [rs rst rsz]. destruct rq as [qs qst qsz]. cbv [reg_disjoint r_seg r_start r_size] in *. lia.
       * intros x Hx. apply in_or_app. left. exact Hx.
       * apply incl_refl.
       * apply (hi_slots _ _ _ H). exact Hq'.
+Qed.
+
+Lemma hinv_place m objs pads w q ht raw w' :
+  w_dst w = m -> hinv m objs pads ->
+  In q ((0, 0) :: flat_map slots objs) -> In ht objs ->
+  (p_kind ht = KStruct -> os_isZero (p_size ht) = false) ->
+  raw_of ht = Ok raw ->
+  place w (fst q) (snd q) (p_seg ht) (obj_start ht) raw = Ok w' ->
+  nsegs (w_dst w') < 4294967296 ->
+  exists pads', hinv (w_dst w') objs (pads ++ pads').
+Proof.
+  intros A B C D E F G I. destruct (hinv_place_full m objs pads w q ht raw w' A B C D E F G I) as (pads' & X & _).
+  exists pads'. exact X.
 Qed.
 
 (* ------------------------------------------------------------------ what the invariant gives *)
@@ -907,15 +1180,15 @@ Theorem hinv_pointers_valid m objs pads q :
   hinv m objs pads -> In q ((0, 0) :: flat_map slots objs) ->
   exists t rs, resolve_ptr (bm_data m) (fst q) (snd q) = (t, rs) /\ is_bad t = false /\
     (forall r, In r rs -> in_msg (bm_data m) r \/ r_size r = 0) /\
-    (rs = [] \/ exists ps r, rs = ps ++ [r] /\ incl ps pads /\
-        (r_size r = 0 \/ exists h, In h objs /\ r = obj_reg h /\ t = tgt_of h)).
+    (rs = [] /\ no_tag t \/ exists ps r, rs = ps ++ [r] /\ incl ps pads /\
+        (r_size r = 0 /\ no_tag t \/ exists h, In h objs /\ r = obj_reg h /\ t = tgt_of h)).
 Proof.
   intros H Hq. destruct (hi_slots _ _ _ H q Hq) as (t & rs & E & S & C).
   exists t, rs. split; [exact E|]. split; [destruct t; cbn in *; auto; contradiction|]. split; [|exact C].
-  intros r Hr. destruct C as [->|(ps & r0 & -> & Ips & D)]; [destruct Hr|].
+  intros r Hr. destruct C as [[-> _]|(ps & r0 & -> & Ips & D)]; [destruct Hr|].
   apply in_app_or in Hr. destruct Hr as [Hr|[<-|[]]].
   - left. apply (hi_in _ _ _ H). unfold all_regs. apply in_or_app. right. apply Ips. exact Hr.
-  - destruct D as [D|(h & Hh & -> & _)]; [right; exact D|left].
+  - destruct D as [[D _]|(h & Hh & -> & _)]; [right; exact D|left].
     apply (hi_in _ _ _ H). unfold all_regs, regsO. apply in_or_app. left. right. apply in_map. exact Hh.
 Qed.
 
@@ -923,14 +1196,14 @@ Qed.
 Theorem hinv_data_write m objs pads m' h addr bs :
   hinv m objs pads -> In h objs -> 0 <= p_seg h ->
   wrote m m' (p_seg h) addr bs ->
-  p_off h <= addr -> addr + zlen bs <= p_off h + r_size (obj_reg h) ->
-  (forall q, In q (slots h) -> addr + zlen bs <= snd q) ->
+  p_off h <= addr -> addr + zlen bs <= obj_start h + r_size (obj_reg h) ->
+  (forall q, In q (slots h) -> addr + zlen bs <= snd q \/ snd q + 8 <= addr) ->
   hinv m' objs pads.
 Proof.
   intros H Hh Hs W Hlo Hhi Hsl.
   pose proof (wrote_keeps _ _ _ _ _ W Hs) as K. pose proof (wrote_inv _ _ _ _ _ W Hs (hi_inv _ _ _ H)) as I'.
   assert (N : nsegs m' = nsegs m) by (unfold nsegs; apply (wrote_nsegs _ _ _ _ _ W)).
-  destruct (data_range_avoids m objs pads h addr (addr + zlen bs) H Hh Hlo Hhi Hsl) as [A1 A2].
+  destruct (data_range_avoids m objs pads h addr (addr + zlen bs) H Hh Hlo Hhi Hsl) as (A1 & A2 & A3).
   apply (hinv_frame m objs pads m' (fun i k => i = p_seg h /\ addr <= k < addr + zlen bs)); auto.
   - intros i. destruct (Z_lt_ge_dec i 0) as [L|G].
     + unfold mem, get_seg. replace (Z.to_nat i) with O by lia. pose proof (wrote_len _ _ _ _ _ 0 W ltac:(lia)) as X.
@@ -952,10 +1225,38 @@ Proof.
     destruct (Z.to_nat i) as [|[|n]]; cbn; unfold maxSegmentSize; lia.
   - cbn. lia.
   - intros h [].
+  - intros h [].
   - intros r [<-|[]]. reflexivity.
   - intros r [].
   - intros i j Hij Hj. cbn in Hj. lia.
   - intros i j Hij Hj. cbn in Hj. lia.
   - intros a p _ [].
   - intros q [<-|[]]. apply null_slot_ok. reflexivity.
+Qed.
+
+(* ------------------------------------------------------------------ read back over the object table *)
+(* the abstract store of a message: the bytes of every table object and the target of every
+   pointer slot.  A data write inside one object: the written bytes are read back, every other
+   byte of every segment is unchanged (in particular the data of every other object), and
+   every pointer slot of the table resolves exactly as before. *)
+Theorem data_write_read_back m objs pads m' h addr bs :
+  hinv m objs pads -> In h objs -> 0 <= p_seg h ->
+  wrote m m' (p_seg h) addr bs ->
+  p_off h <= addr -> addr + zlen bs <= obj_start h + r_size (obj_reg h) ->
+  (forall q, In q (slots h) -> addr + zlen bs <= snd q \/ snd q + 8 <= addr) ->
+  slice (mem m' (p_seg h)) addr (zlen bs) = Ok bs /\
+  keeps m m' (fun i k => i = p_seg h /\ addr <= k < addr + zlen bs) /\
+  (forall q, In q ((0, 0) :: flat_map slots objs) ->
+     resolve_ptr (bm_data m') (fst q) (snd q) = resolve_ptr (bm_data m) (fst q) (snd q)).
+Proof.
+  intros H Hh Hs W Hlo Hhi Hsl.
+  pose proof (wrote_keeps _ _ _ _ _ W Hs) as K.
+  assert (N : nsegs m' = nsegs m) by (unfold nsegs; apply (wrote_nsegs _ _ _ _ _ W)).
+  destruct (data_range_avoids m objs pads h addr (addr + zlen bs) H Hh Hlo Hhi Hsl) as (A1 & A2 & A3).
+  split; [|split; [exact K|]].
+  - apply (wrote_slice_same m m'); auto. pose proof (hi_small _ _ _ H (p_seg h)). unfold maxSegmentSize in *. lia.
+  - intros q Hq. apply (slot_resolve_frame m m' (fun i k => i = p_seg h /\ addr <= k < addr + zlen bs) pads objs); auto; try lia.
+    + intros r Hr. apply (hi_in _ _ _ H). unfold all_regs. apply in_or_app. right. exact Hr.
+    + apply (hi_tags _ _ _ H).
+    + apply (hi_slots _ _ _ H). exact Hq.
 Qed.
